@@ -37,6 +37,7 @@ func (P) Engine() string { return "E1+E2" }
 
 func (P) Describe() harness.Description {
 	return harness.Description{
+		MustHit: []string{"capacity_reused_after_exit", "concurrent_rejections"},
 		Level: "exploration",
 		Rule: "case = (1-3 resources, 1-3 isolation rules per resource, 10-60 operations: requests with batches over the full uint32 range (>=1) held open, exits in any order, ticks). " +
 			"E1: admit iff for every rule live(res)+b <= N in unbounded integers, TriggeredRule/TriggeredValue as the reference, node concurrency == live after every op. " +
